@@ -23,12 +23,8 @@ def key_cache(m, obs):
     if ex:
         return "%s:%s" % (m["what"], "+".join(sorted(ex)))
     d = m.get("detail") if isinstance(m.get("detail"), dict) else {}
-    kinds = ",".join(
-        ("reply" if e["k"] == "reply" else
-         "chg[%s/%s/%s:%s!%s]" % (e["iface"], e["src"], e["path"], "+".join(sorted(e["changed"])) if isinstance(e["changed"], dict) else "",
-                                  "+".join(e["inval"])) if e["k"] == "chg" else e["k"])
-        for e in obs.get("evs", []) if e["k"] in ("reply", "chg", "q"))
-    return "%s:%s:%s:%s" % (m["what"], d.get("prop", ""), obs.get("mode"), kinds)
+    # class of failing input: clause + property + cache mode (one replay file per class; the first failing history is kept)
+    return "%s:%s:%s" % (m["what"], d.get("prop", ""), obs.get("mode"))
 
 
 def validate(chk, pid, obs_path, cases, shards):
